@@ -6054,6 +6054,9 @@ class CodegenCtx:
         result.add(f"{self.program_name}_result_t {self.program_name}_end({self.program_name}_state_t *state) {{")
         result.add(f"#define inval 255") # generate a define for this so that hooks still work
         with result as contents:
+            # Generate a target for transitions whose actions may change the state (only if something jumps to it, to avoid unused label warnings)
+            if any("goto repeatswitch;" in self._generate_end_switch_body(state) for state in self.dfa.states if state is not self.generic_fail_state):
+                contents.add("repeatswitch:")
             # Generate a big switch statement for all states
             contents.add("switch (state->state) {")
             for idx, state in enumerate(self.dfa.states):
